@@ -546,3 +546,16 @@ Theorem c16_passwd_part_counts :
   (forall line, List.length (filter (Ascii.eqb ":") (list_ascii_of_string (trim_space line))) <> 3%nat -> parse_group line = Err).
 Proof. exact (conj parse_user_parts (conj parse_group_parts (conj parse_user_colons parse_group_colons))). Qed.
 Print Assumptions c16_passwd_part_counts.
+
+(* passwd / group on ANY text (last line terminated or not, LF or CRLF): when Load
+   succeeds it returns exactly one entry per line of the text -- no line is dropped,
+   the unterminated last one included; and the validator run on the implementation's
+   result decides that statement *)
+Theorem c16_load_one_entry_per_line :
+  (forall s l, load_users s = Ok l -> List.length l = text_line_count s) /\
+  (forall s l, load_groups s = Ok l -> List.length l = text_line_count s) /\
+  (forall A k text (rb : res (list A)), entry_count_tags k text rb = [] <-> (forall l, rb = Ok l -> List.length l = text_line_count text)).
+Proof.
+  split; [exact (load_file_count parse_user default_max_token)|]. split; [exact (load_file_count parse_group default_max_token)|exact (@entry_count_tags_iff)].
+Qed.
+Print Assumptions c16_load_one_entry_per_line.
